@@ -60,8 +60,14 @@ $(NETB)/marker_begin.o: sim/marker_begin.c | dirs
 $(NETB)/marker_end.o: sim/marker_end.c | dirs
 	$(CC) -O1 -c $< -o $@
 
-$(B)/net_sim: $(NETB)/marker_begin.o $(NET_LIB_OBJS) $(NET_EX_OBJS) $(NETB)/marker_end.o $(NET_SIM_OBJS)
-	$(CXX) -no-pie -fsanitize=address,bounds,integer-divide-by-zero $(NET_WRAPFLAGS) -o $@ $(NETB)/marker_begin.o $(NET_LIB_OBJS) $(NET_EX_OBJS) $(NETB)/marker_end.o $(NET_SIM_OBJS) -lm
+# second copy of the example programs at -O0 (locals live on the stack: uninitialised pointers read the 0xA5 fill)
+NET_REPO_CFLAGS_O0 := $(REPO_CFLAGS_COMMON) -O0 $(NET_SAN) $(COV) -I$(EX)
+EX_SRCS := $(shell find $(EX) -name '*.c' | sort)
+$(NETB)/examples_O0.o: $(EX_SRCS) $(REPO_HDRS) Makefile tools/build_o0.sh | dirs
+	tools/build_o0.sh $(NETB)/exO0 $@ "$(CC)" "$(NET_REPO_CFLAGS_O0)" $(EX)
+
+$(B)/net_sim: $(NETB)/marker_begin.o $(NET_LIB_OBJS) $(NET_EX_OBJS) $(NETB)/examples_O0.o $(NETB)/marker_end.o $(NET_SIM_OBJS)
+	$(CXX) -no-pie -fsanitize=address,bounds,integer-divide-by-zero $(NET_WRAPFLAGS) -o $@ $(NETB)/marker_begin.o $(NET_LIB_OBJS) $(NET_EX_OBJS) $(NETB)/examples_O0.o $(NETB)/marker_end.o $(NET_SIM_OBJS) -lm
 
 net: $(B)/net_sim
 
